@@ -7,7 +7,7 @@ set -e
 cd "$(dirname "$0")"
 VERIF=$(pwd)
 REPO=${VERIF_REPO:-/repo}
-OUT=$VERIF/.build
+OUT=${VERIF_BUILD:-$VERIF/.build}
 mkdir -p "$OUT"
 
 variant_flags() {
